@@ -1336,14 +1336,28 @@ def _fit_end_point(ctx, hfn):
                               'would not sit at the expected total length'), h.get('ln')
 
 
-def _path_lengths_in_step(ctx, hfn):
-    import lenshape
-    ok, why, n = lenshape.check(ctx.facts, hfn)
-    return ok, why, None
+def _lenshape(mode):
+    def chk(ctx, hfn):
+        import lenshape
+        why = ''
+        for dpt in (0, 1, 2, 3):
+            vh = hfn if dpt == 0 else H.inlined_fn(ctx.facts, hfn, depth=dpt)
+            ok, why, n = lenshape.check(ctx.facts, vh, mode)
+            if ok:
+                return True, '', None
+            if 'not determined' not in why:
+                break           # a definite finding; only "cannot tell" is retried with helpers inlined
+        return False, why, None
+    return chk
 
 
-_path_lengths_in_step.positive = True
+_path_lengths_in_step = _lenshape('in-step')
 row('C19', CLEN, 'vertices-and-lengths-in-step', _path_lengths_in_step)
+
+
+_fit_indices_in_range = _lenshape('underflow')
+row('C19', CLEN, 'fit:indices-non-negative', _fit_indices_in_range)
+row('C01', CLEN, 'fit:indices-non-negative', _fit_indices_in_range)
 _fit_end_point.positive = True
 row('C19', CLEN, 'fit:end-point', _fit_end_point)
 row('C19', CLEN, 'fit:end_idx', _let('end_idx', M('len', L('cumulative_len'))))
